@@ -317,6 +317,7 @@ func checkOptionGuardsAs(p *Prog, r *Report, rule string, timesOnly bool) {
 		val := map[string]bool{"PU": m&1 != 0, "PG": m&2 != 0, "ROOT": m&4 != 0, "ING": m&8 != 0, "UD": m&16 != 0, "GD": m&32 != 0}
 		var sim *Sim
 		sim = &Sim{Fn: su, TrackChoices: true, Completed: func(*ssa.Return) bool { return true },
+			Inline: func(*ssa.Function) bool { return true }, // predicate helpers split out of setUid
 			Atom: func(cond ssa.Value) (bool, bool) {
 				switch x := cond.(type) {
 				case *ssa.UnOp:
